@@ -67,9 +67,14 @@ func (b Bytes) Bytes() []byte {
 }
 
 // Hash computes a hash for a Bytes.
+// bytesHashSalt keeps Bytes hashes apart from those of other kinds with the same content.
+const bytesHashSalt = 0x42797432
+
 func (b Bytes) Hash(seed uintptr) uintptr {
 	// TODO: implement a []byte-friendly hash function.
-	return hash.String(string(b.b), seed)
+	// The offset is part of the value, and a byte array must not hash like the string with
+	// the same text: sets trust equal member hashes.
+	return hash.String(string(b.b), hash.Int(b.offset, seed^bytesHashSalt))
 }
 
 // Equal tests two Byteses for equality. Any other type returns false.
